@@ -20,6 +20,9 @@ StartOpts == ({[dl |-> d, stop |-> NoStop, nb |-> FALSE, rin |-> 0, rout |-> 0, 
              \* a policy given at start is for destroy / run only: an explicit request, also the all-noop one, ignores it
              \cup {[dl |-> d, stop |-> KillNow, nb |-> FALSE, rin |-> 0, rout |-> 0, rerr |-> 0, input |-> -1,
                      term |-> 2, self |-> TRUE, prog |-> "/bin/c", fork |-> FALSE] : d \in DlOpts}
+             \* a child that cannot be signalled: the failed action's error is the result, no later action is tried
+             \cup {[dl |-> d, stop |-> NoStop, nb |-> FALSE, rin |-> 0, rout |-> 0, rerr |-> 0, input |-> -1,
+                     term |-> 2, self |-> TRUE, prog |-> "/bin/c", fork |-> FALSE, kf |-> TRUE] : d \in DlOpts}
 
 Next ==
   \/ ncalls = 0 /\ New(1)
